@@ -3,7 +3,7 @@
    when a proof breaks. *)
 From Coq Require Import Reals List Bool Arith Lra.
 From Interval Require Import Tactic.
-From LV Require Import Analytic.Sigmoid Analytic.Copula Analytic.MvnDegen.
+From LV Require Import Analytic.Sigmoid Analytic.Copula Analytic.MvnDegen Analytic.MvnMatrix.
 Import ListNotations.
 Open Scope R_scope.
 
@@ -11,6 +11,9 @@ Definition close (x v tol : R) : Prop := Rabs (x - v) <= tol.
 
 (* a vector given as a list; the default is never read: the model only reads indices < length *)
 Definition vec (l : list R) : nat -> R := fun i => nth i l 0.
+
+(* a matrix given as the list of its rows *)
+Definition matl (rows : list (list R)) : mat := fun a b => nth b (nth a rows []) 0.
 
 (* the three constructors on eigenvalue lists (ascending, as eigh / eigvalsh return them) *)
 Definition mvn_plain (lam : list R) (rk : option nat) (lp : option R) (tol : R) : mvnd :=
@@ -39,6 +42,7 @@ Ltac c18_unfold :=
      quad rsum ncount rank_of log_pdet_rank log_pdet_tol dim evals rank_arg lpd_arg tolv tol_default
      sqrt_pcov_diag sample_coord range_gaussian_logpdf normal_logpdf_prec pinv_diag
      length nth Nat.sub Nat.leb Nat.add INR
+     matl logpdf_matrix quadform prec_of coords from_coords mat_vec
      asig asig_inv asig_fldj asig_ildj asig_deriv asig_inv_deriv
      copula_logpdf copula_logpdf_uv mvn_tril2_logpdf tril22 phi_log copula_closed_form].
 
